@@ -66,3 +66,7 @@ def run(c):
         "grin_store::lmdb::Store::migrate_to_default_env|Sender::send|2": "progress notification channel",
         "grin_store::lmdb::Store::migrate_to_default_env|Sender::send|3": "progress notification channel",
     }, floor_checked=150)
+    # --- type-level clauses (R8 compile-fail witnesses with compiling twins; `cargo check` only, nothing is executed)
+    import witness
+    witness.run(c, "C18")
+
